@@ -778,6 +778,11 @@ def tracker_roles(ctx, start: FuncInfo) -> Dict[FuncInfo, Roles]:
                     unpack(roles, n.targets[0], roles[n.value.id], fi)
                 elif isinstance(n.targets[0], ast.Name) and roles.of(n.value) is not None:
                     roles[n.targets[0].id] = roles.of(n.value)
+                elif isinstance(n.targets[0], ast.Tuple) and isinstance(n.value, ast.Tuple) \
+                        and len(n.targets[0].elts) == len(n.value.elts):
+                    for t_, v_ in zip(n.targets[0].elts, n.value.elts):
+                        if isinstance(t_, ast.Name) and roles.whole(v_) is not None:
+                            roles[t_.id] = roles.whole(v_)
             changed = dict(roles) != before
         for c in calls(fi.node, into_defs=True):
             callee = resolve_method_call(repo, fi, c)
@@ -1654,8 +1659,20 @@ def r7(ctx):
             continue
         rn = cfg.nodes_for(r)
 
-        def must_pass(pred):
-            nodes = [n for st in stores(tk.node, into_defs=False) if pred(st) for n in cfg.nodes_for(st.node)]
+        def must_pass(pred, cp=cp):
+            nodes = [n for st in stores(tk.node, into_defs=False) if st.path.startswith(cp + ".") and pred(st, cp)
+                     for n in cfg.nodes_for(st.node)]
+            # a method of the message class called on the copy that performs the store on every one of its paths
+            for c in calls(tk.node, into_defs=False):
+                if isinstance(c.func, ast.Attribute) and ap(c.func.value) == cp and tk.cls is not None:
+                    m = repo.lookup_method(tk.cls, c.func.attr)
+                    if m is None:
+                        continue
+                    mcfg = CFG(m.node)
+                    inner = [n for st in stores(m.node, into_defs=False) if st.path.startswith("self.") and pred(st, "self")
+                             for n in mcfg.nodes_for(st.node)]
+                    if inner and mcfg.exit not in mcfg.reachable([mcfg.entry], avoid=lambda n: n in inner):
+                        nodes.extend(cfg_nodes(cfg, c))
             reach = cfg.reachable([cfg.entry], avoid=lambda n: n in nodes)
             return bool(nodes) and not any(n in reach for n in rn)
 
@@ -1663,16 +1680,16 @@ def r7(ctx):
             return (isinstance(v, (ast.Tuple, ast.List)) and not v.elts) or \
                 (isinstance(v, ast.Call) and ap(v.func) in ("tuple", "list") and not v.args and not v.keywords)
         ctx.ob("C05.R7", "Message.take: the copy's acks are emptied on every path",
-               must_pass(lambda st: st.path == f"{cp}.acks" and st.kind == "assign" and st.value is not None and empty(st.value)),
+               must_pass(lambda st, o: st.path == f"{o}.acks" and st.kind == "assign" and st.value is not None and empty(st.value)),
                ctx.w(tk, r), "a path returns the copy with the original's appended acks: they reach the endpoint a second "
                "time (and untranslated) when the copy is sent")
         ctx.ob("C05.R7", "Message.take: the copy's ACK flag is cleared on every path",
-               must_pass(lambda st: st.path == f"{cp}.send_flags" and st.kind == "augassign" and isinstance(st.node.op, ast.BitAnd)
+               must_pass(lambda st, o: st.path == f"{o}.send_flags" and st.kind == "augassign" and isinstance(st.node.op, ast.BitAnd)
                          and isinstance(st.value, ast.UnaryOp) and isinstance(st.value.op, ast.Invert)
                          and (ap(st.value.operand) or "").endswith("PacketFlags.ACK")),
                ctx.w(tk, r), "a path returns the copy with PacketFlags.ACK still set")
         ctx.ob("C05.R7", "Message.take: the copy's packet id is reset to None on every path",
-               must_pass(lambda st: st.path == f"{cp}.packet_id" and st.kind == "assign" and isinstance(st.value, ast.Constant)
+               must_pass(lambda st, o: st.path == f"{o}.packet_id" and st.kind == "assign" and isinstance(st.value, ast.Constant)
                          and st.value.value is None),
                ctx.w(tk, r), "a path returns the copy with the original's packet id: it is sent as if it were the "
                "original endpoint packet instead of an injected one")
@@ -1809,6 +1826,13 @@ def r8(ctx):
     n = 0
     for f, st in writers_of(repo, "circuit"):
         if st.kind != "assign" or not isinstance(st.value, ast.Call) or call_attr(st.value) not in circ_names:
+            # any other write of a `.circuit` field: only constructors may do that (initial None / injected mock)
+            if st.path.endswith(".circuit") and st.kind in ("assign", "del", "augassign"):
+                ctx.ob("C05.R8", f"{f.qual}: `{norm(st.node)}` - the circuit reference is set by constructors and "
+                                 f"open_circuit only", f.name == "__init__", ctx.w(f, st.node),
+                       "a region's circuit is released / replaced outside the constructor and open_circuit: its "
+                       "translation and resend state is lost and a forward that was already validated for this region "
+                       "(handle_proxied_packet sends after mark_dead) fails")
             continue
         n += 1
         owner = st.target.value if isinstance(st.target, ast.Attribute) else None
